@@ -535,9 +535,11 @@ func flowsToPhi(v ssa.Value, phi *ssa.Phi) bool {
 }
 
 // R5: ownership of events / seqs / remove.
-func (x *reasm) c01r5() {
+func (x *reasm) c01r5() { x.ownership("C01.R5") }
+
+func (x *reasm) ownership(ruleID string) {
 	r := x.r
-	r.Rule("C01.R5", "ownership: events is inserted into only in Put and deleted from only in remove; seqs is stored only in Put, remove and the constructor; remove is called only from CleanUp/Clear", 6)
+	r.Rule(ruleID, "ownership: events is inserted into only in Put and deleted from only in remove; seqs is stored only in Put, remove and the constructor; remove is called only from CleanUp/Clear", 6)
 	for _, a := range x.w.FieldAccesses(x.fEvents) {
 		key := "events " + fnName(a.Fn) + " " + a.Kind
 		switch a.Kind {
@@ -578,9 +580,11 @@ func (x *reasm) c01r5() {
 }
 
 // R6: one callback per evicted event, one callback call per CleanUp/Clear.
-func (x *reasm) c01r6() {
+func (x *reasm) c01r6() { x.deliveryFromEviction("C01.R6") }
+
+func (x *reasm) deliveryFromEviction(ruleID string) {
 	r := x.r
-	r.Rule("C01.R6", "one ReassemblyComplete per evicted event (single forward loop in callback, no other invoke); PushMessage, Maintain and Close each call callback exactly once with both results of the CleanUp/Clear made on that path", 6)
+	r.Rule(ruleID, "one ReassemblyComplete per evicted event (single forward loop in callback, no other invoke); PushMessage, Maintain and Close each call callback exactly once with both results of the CleanUp/Clear made on that path", 6)
 	inv := x.w.Invokes(x.stream, "ReassemblyComplete")
 	for _, s := range inv {
 		r.Check(x.w.ownedBy(s.Caller, x.callback), "ReassemblyComplete invoked in "+fnName(s.Caller), s.Instr.Pos(), "", "ReassemblyComplete is invoked outside callback")
@@ -743,13 +747,15 @@ func init() {
 // shown (by Fourier–Motzkin refutation over the path's constraints) to coincide with the
 // serial-number order: a > b when the elements are more than M apart, a < b otherwise. This is
 // a finite case analysis over orderings; no input is run and no path is handed to a solver.
-func (x *reasm) lessSemantics() {
+func (x *reasm) lessSemantics() { x.lessSemanticsAs("C02.R2", "C02.R3") }
+
+func (x *reasm) lessSemanticsAs(idR2, idR3 string) {
 	r := x.r
 	M := int64(16777215)
 	fn := x.less
 	hasAbs := x.absFn != nil
 	// R2: no narrow or unsigned subtraction feeds the decision
-	r.Rule("C02.R2", "the distance is computed without 32-bit wrap: every subtraction in Less (and abs) has signed 64-bit operands that are widening conversions of the elements, or operates on such differences", 1)
+	r.Rule(idR2, "the distance is computed without 32-bit wrap: every subtraction in Less (and abs) has signed 64-bit operands that are widening conversions of the elements, or operates on such differences", 1)
 	scopeFns := []*ssa.Function{fn}
 	if hasAbs {
 		scopeFns = append(scopeFns, x.absFn)
@@ -821,7 +827,7 @@ func (x *reasm) lessSemantics() {
 		r.Check(absOK, "abs", x.absFn.Pos(), "abs returns -x for x<0 and x otherwise", "abs is not the absolute value")
 	}
 
-	r.Rule("C02.R3", "Less is the serial-number order: on every path, for every region (a-b > M, b-a > M, |a-b| <= M) the path can reach, the returned comparison equals a > b when the elements are more than M = 2^24-1 apart and a < b otherwise (linear case analysis over the path conditions)", 2)
+	r.Rule(idR3, "Less is the serial-number order: on every path, for every region (a-b > M, b-a > M, |a-b| <= M) the path can reach, the returned comparison equals a > b when the elements are more than M = 2^24-1 apart and a < b otherwise (linear case analysis over the path conditions)", 2)
 	aT, bT := "p0[p1]", "p0[p2]"
 	ps, complete := Paths(fn, PathOpts{})
 	if !complete || len(ps) == 0 {
@@ -1027,6 +1033,11 @@ func propC02(r *Run, w *World) {
 		r.Check(constVal(c) == "16777215", "maxSortRange", c.Pos(), "= 1<<24 - 1", "maxSortRange = "+constVal(c)+", want 16777215")
 	}
 	x.lessSemantics()
+	// what the order rests on besides Less: the sorted list is changed only by Put (sorted
+	// insert) and remove (head drop) and evicted only from CleanUp/Clear, and nothing is
+	// delivered that did not come out of such an eviction (shared with C01.R5 / C01.R6)
+	x.ownership("C02.R7")
+	x.deliveryFromEviction("C02.R8")
 
 	r.Rule("C02.R4", "sort after insert: every path of Put that stores seqs calls Sort on the stored slice afterwards; Sort hands the receiver to sort.Sort", 2)
 	{
@@ -1114,6 +1125,14 @@ func propC03(r *Run, w *World) {
 	if !x.ok {
 		return
 	}
+	// after() — which decides whether a sequence counts as newer than the last delivered one —
+	// is built on Less: the window constant and the serial-number order are conditions of the
+	// loss count as well (shared with C02.R1-R3)
+	r.Rule("C03.R7", "the roll-over window constant maxSortRange is 2^24-1 (after() and with it the loss accounting use the same window as the sort order)", 1)
+	if c, ok := r.constOf("libaudit", "maxSortRange"); ok {
+		r.Check(constVal(c) == "16777215", "maxSortRange", c.Pos(), "= 1<<24 - 1", "maxSortRange = "+constVal(c)+", want 16777215: sequence numbers further apart than the window are taken to be on opposite sides of a roll-over, so a late event counts as newer (or the reverse) and the loss count is wrong")
+	}
+	x.lessSemanticsAs("C03.R8", "C03.R9")
 	// R6: the arithmetic the accounting relies on
 	r.Rule("C03.R6", "sequence numbers are 32-bit unsigned: sequenceNum's underlying type is uint32 (the gap is computed modulo 2^32, which is what makes it roll-over aware), lastSeq is a sequenceNum, and AuditMessage.Sequence is a uint32", 3)
 	if n, err := w.Named("libaudit", "sequenceNum"); err != nil {
@@ -1698,6 +1717,7 @@ func propC10(r *Run, w *World) {
 	}
 	// R4
 	x.configAsPassed("C10.R4")
+	x.expiryPolarity("C10.R5")
 }
 
 // configAsPassed: the limits the caller chose are the limits that apply (shared by C10 and C19).
@@ -1859,26 +1879,7 @@ func propC19(r *Run, w *World) {
 	if !x.ok {
 		return
 	}
-	r.Rule("C19.R1", "expiry polarity: IsExpired is time.Now().After(e.expireTime); expireTime is stored only when the event is created in Put, as time.Now().Add(l.timeout)", 2)
-	rets := returnsOf(x.isExpired)
-	okE := len(rets) == 1 && len(x.isExpired.Blocks) == 1 && Term(rets[0].Results[0]) == "(time.Time).After(time.Now(), p0.expireTime)"
-	r.Check(okE, "IsExpired", x.isExpired.Pos(), "time.Now().After(e.expireTime)", "IsExpired is not time.Now().After(e.expireTime)")
-	for _, a := range Writes(w.FieldAccesses(x.fExpire)) {
-		ok := a.Kind == "store" && x.w.ownedBy(a.Fn, x.put) && Term(a.Val) == "(time.Time).Add(time.Now(), p0.timeout)"
-		// ... and only into the event being created: the address is a field of a fresh allocation,
-		// not of an event that was looked up (re-arming the timeout on every record would measure
-		// it from the last record instead of the first)
-		fresh := false
-		if a.Addr != nil {
-			_, fresh = a.Addr.X.(*ssa.Alloc)
-		}
-		r.Check(ok && fresh, "expireTime written in "+fnName(a.Fn), a.Instr.Pos(), "time.Now().Add(l.timeout) at creation", "expireTime is written elsewhere, into an existing event, or with another value: "+a.Kind+" "+func() string {
-			if a.Val != nil {
-				return Term(a.Val)
-			}
-			return ""
-		}())
-	}
+	x.expiryPolarity("C19.R1")
 	x.evictionPredicate("C19.R2")
 	x.pushCleansUp("C19.R2b")
 
@@ -2174,5 +2175,31 @@ func propC11(r *Run, w *World) {
 		for _, a := range Writes(w.FieldAccesses(fv)) {
 			r.Check(x.w.ownedBy(a.Fn, x.newEventList) && a.Kind == "store", fieldName(fv)+" written in "+fnName(a.Fn), a.Instr.Pos(), "", "eventList."+fieldName(fv)+" is written after construction")
 		}
+	}
+}
+
+// expiryPolarity: what "expired" means (C19.R1). C10's third cause of eviction - the timeout has
+// elapsed - is this predicate, so C10 states it too (C10.R5).
+func (x *reasm) expiryPolarity(ruleID string) {
+	r := x.r
+	r.Rule(ruleID, "expiry polarity: IsExpired is time.Now().After(e.expireTime); expireTime is stored only when the event is created in Put, as time.Now().Add(l.timeout)", 2)
+	rets := returnsOf(x.isExpired)
+	okE := len(rets) == 1 && len(x.isExpired.Blocks) == 1 && Term(rets[0].Results[0]) == "(time.Time).After(time.Now(), p0.expireTime)"
+	r.Check(okE, "IsExpired", x.isExpired.Pos(), "time.Now().After(e.expireTime)", "IsExpired is not time.Now().After(e.expireTime)")
+	for _, a := range Writes(x.w.FieldAccesses(x.fExpire)) {
+		ok := a.Kind == "store" && x.w.ownedBy(a.Fn, x.put) && Term(a.Val) == "(time.Time).Add(time.Now(), p0.timeout)"
+		// ... and only into the event being created: the address is a field of a fresh allocation,
+		// not of an event that was looked up (re-arming the timeout on every record would measure
+		// it from the last record instead of the first)
+		fresh := false
+		if a.Addr != nil {
+			_, fresh = a.Addr.X.(*ssa.Alloc)
+		}
+		r.Check(ok && fresh, "expireTime written in "+fnName(a.Fn), a.Instr.Pos(), "time.Now().Add(l.timeout) at creation", "expireTime is written elsewhere, into an existing event, or with another value: "+a.Kind+" "+func() string {
+			if a.Val != nil {
+				return Term(a.Val)
+			}
+			return ""
+		}())
 	}
 }
